@@ -3,12 +3,7 @@
 # applied to /repo (which must be clean), keeps the first outcome in meta.json as check_first_run.
 set -u
 N=$1; NOTE=$2; P=${N%%_*}
-if [ -n "$(git -C /repo status --porcelain)" ]; then echo "seedrerun: /repo has uncommitted changes" >&2; exit 3; fi
-git -C /repo apply /verif/seeded/$N/patch.diff || { echo "patch does not apply"; exit 2; }
-cp /verif/evidence/$P.json /tmp/evidence_$P.keep 2>/dev/null
-/verif/check $P quick > /verif/seeded/$N/check_with_mutation_rerun.log 2>&1; rc=$?
-git -C /repo checkout -- .
-[ -f /tmp/evidence_$P.keep ] && mv /tmp/evidence_$P.keep /verif/evidence/$P.json
+/verif/tools/scratchcheck.sh $P /verif/seeded/$N/patch.diff /verif/seeded/$N/check_with_mutation_rerun.log; rc=$?
 python3 - "$N" "$NOTE" "$rc" <<'P'
 import json,sys
 n,note,rc=sys.argv[1],sys.argv[2],int(sys.argv[3])
